@@ -68,6 +68,67 @@ func runC15(c *fw.Ctx) {
 	for i := 0; i < c.Pick(800, 20000); i++ {
 		c.Case(func(k *fw.K) { c15Rearmed(k) })
 	}
+	// ---- saturated inputs (|x| 8..19 for Tanh, 8..30 for Sigmoid) under an upstream weighting of the size of 1/derivative: the
+	// product is an ordinary number; a derivative formed by cancellation (1 - y*y) has lost its digits there ----
+	for i := 0; i < c.Pick(300, 6000); i++ {
+		c.Case(func(k *fw.K) {
+			r := k.Rng
+			shape := RandShape(r, 0, 2, 3)
+			var sp actSpec
+			for _, q := range actSpecs(len(shape)) {
+				if (q.in.Op == "tanh" && i%2 == 0) || (q.in.Op == "sigmoid" && i%2 == 1) {
+					sp = q
+				}
+			}
+			x, g := ref.Zeros(shape), ref.Zeros(shape)
+			for e := range x.Data {
+				sign := []float64{1, -1}[r.Intn(2)]
+				var d float64
+				if sp.in.Op == "tanh" {
+					x.Data[e] = sign * (8 + 11*r.Float64())
+					c := math.Cosh(x.Data[e])
+					d = 1 / (c * c)
+				} else {
+					x.Data[e] = sign * (8 + 22*r.Float64())
+					ex := math.Exp(-math.Abs(x.Data[e]))
+					d = ex / ((1 + ex) * (1 + ex))
+				}
+				g.Data[e] = (0.5 + r.Float64()) / d * []float64{1, -1}[r.Intn(2)]
+			}
+			obj, err := sp.mk()
+			if err != nil {
+				k.Failf("%s: constructor: %v", sp.name, err)
+				return
+			}
+			k.Case = gcase{In: sp.in, Ops: []*ref.T{x}, Tracked: []bool{true}, G: g}
+			k.Key("saturated/%s/%s", sp.name, shapeKey(shape))
+			k.Count("saturated_input_cases", 1)
+			rx := rt.MustLeaf(x, true)
+			if r.Intn(2) == 0 { // the activation input is an intermediate: h = 2 * (x/2)
+				half := rt.MustLeaf(x.Map(func(v float64) float64 { return v / 2 }), true)
+				rx = half.Scale(2)
+			}
+			var y tensor.Tensor
+			if p := call(func() {
+				if y, err = obj.Forward(rx); err == nil {
+					err = weightedBackprop(y, g)
+				}
+			}); p != nil || err != nil || y == nil {
+				k.Failf("%s at saturated inputs: panic=%v err=%v", sp.name, p, err)
+				return
+			}
+			yv, _ := ref.Apply(sp.in, []*ref.T{x})
+			want := ref.VJP(sp.in, []*ref.T{x}, yv, g, ref.RuleSum)[0]
+			gr := rx.Gradient()
+			if gr == nil {
+				k.Failf("%s at saturated inputs: the input received no gradient", sp.name)
+				return
+			}
+			if e := rt.Compare(gr, want, 1e-9, 1e-6, nil, 0); e != nil {
+				k.Failf("%s at saturated inputs (|x| = 8..30) under a weighting of the size of 1/derivative: %v", sp.name, e)
+			}
+		})
+	}
 	// ---- (ii) interior inputs ----
 	for i := 0; i < c.Pick(6000, 400000); i++ {
 		c.Case(func(k *fw.K) { c15Upstream(k) })
